@@ -117,6 +117,7 @@ var Cfg = struct {
 	AssertTO   int
 	Verbose    bool
 	NoPanicViol bool
+	UnwindViolation bool
 	NoInjectivity bool
 }{MaxSteps: 2000000, Sched: "det", Stubs: map[string]string{}, Params: map[string]int{}}
 
